@@ -53,7 +53,9 @@ S = _FreshProxy(_S)
 from ..exact import Pure, call, case_rng, describe, present_nd
 
 RULE = ("every constructor exported by toqito.states / toqito.matrices (all have a Lean model since the deepening pass) on dims 2..5, qubit counts 1..5 (0..5 for hadamard), all index "
-        "pairs, all accepted argument forms (int/str/list, sparse flag, coefficient vectors with rational norm, scalar and list alpha), "
+        "pairs, all accepted argument forms (int/str/list, sparse flag, coefficient vectors with rational norm, the same integer coefficient vectors of ghz / w_state multiplied by 2^e for e in -400..400 "
+        "(exact in float64; norms 1e-120..1e120, i.e. far below and above 1) as list and as float64 ndarray with the model's state of the unscaled vector as oracle "
+        "(theorems ghz_scaled_coeff_model / w_scaled_coeff_model), scalar and list alpha), "
         "rational parameter grids containing the interval end points, the PPT thresholds, threshold +- 1e-6 and points just outside the "
         "documented ranges; rejection stream where a range is documented. A case = (constructor, arguments). non-trivial = local "
         "dimension >= 2 and the arguments do not select the identity / a computational basis vector; distinct = hash of (constructor, arguments). "
@@ -619,6 +621,10 @@ def some_perms(rng, n, quick):
     return [allp[int(i)] for i in rng.choice(len(allp), size=24, replace=False)]
 
 
+# log2 of the factors applied to integer coefficient vectors: norms 1e-120 .. 1e120 (squares stay inside the normal float64 range)
+SCALE_EXPONENTS = (-400, -100, -50, -41, -30, -20, -10, 10, 30, 100, 400)
+
+
 def check_ghz(k: K):
     rng = k.ctx.rng
     for d in range(2, 6):
@@ -648,6 +654,26 @@ def check_ghz(k: K):
                     v = k.pure(S.ghz, d, n, cpy)
                     k.case("ghz", args, True, "ghz/coeff")
                     k.cmp_int("ghz", args, v, k.L.ask("c17_int", {"kind": "ghz", "d": d, "n": n, "coeff": c}), "ghz_support")
+    # un-normalised coefficients at every scale: t*c with t an exact power of two (so t*c is exact in float64 and no square
+    # under- or overflows) must give the state of c itself: tiny norms (far below any "division guard" such as 1e-12 or machine epsilon) and huge ones
+    for d, cl in coeffs.items():
+        for c in cl:
+            for n in (1, 2, 3):
+                res = k.L.ask("c17_int", {"kind": "ghz", "d": d, "n": n, "coeff": c})
+                prng = case_rng("c17/ghz-scale", d, n, c)
+                for e in SCALE_EXPONENTS:
+                    t = math.ldexp(1.0, e)
+                    for form, cpy in (("scaled-list", [t * x for x in c]), ("scaled-array", present_nd(prng, np.array([t * x for x in c], dtype=float), allow_dtype=False))):
+                        args = {"dim": d, "num_qubits": n, "coeff": c, "scale_log2": e, "form": form}
+                        r = k.run_impl(S.ghz, d, n, cpy)
+                        k.case("ghz", args, True, "ghz/coeff-scaled")
+                        if r[0] != "ok":
+                            k.bad(f"raised {r[1]} on a coefficient vector of norm 2^{e} * {SQ(sum(x * x for x in c)):.4g}", "ghz", args, theorem="ghz_scaled_coeff_model")
+                            continue
+                        v = r[1]
+                        if not k.cmp_int("ghz", args, v, res, "ghz_scaled_coeff_model / ghz_coeff_scale_invariant (normalisation at every scale) + ghz_support"):
+                            x = np.asarray(v, dtype=float).reshape(-1)
+                            k.close("norm", "ghz", args, x @ x, 1.0, theorem="ghz_norm / ghz_scaled_coeff_model")
     for (d, n, c) in [(0, 2, None), (-1, 2, None), (2, 0, None), (2, -1, None), (2, 2, [1, 2, 3]), (3, 2, [1, 2])]:
         res = k.L.ask("c17_int", {"kind": "ghz", "d": d, "n": n, "coeff": c})
         k.expect_reject("ghz", {"dim": d, "num_qubits": n, "coeff": c}, S.ghz, (d, n, c), res)
@@ -686,6 +712,23 @@ def check_w(k: K):
             v = k.pure(S.w_state, n, cpy)
             k.case("w_state", args, True, "w_state/coeff")
             k.cmp_int("w_state", args, v, k.L.ask("c17_int", {"kind": "w_state", "n": n, "coeff": c}), "w_amplitude / w_support / w_norm (generalised W state, documented normalisation)", kind=w_kind)
+    # the same coefficient vectors at every scale (exact powers of two): tiny and huge norms
+    for c in ([3, 4], [1, 2, 2], [2, 3, 6], [1, 2, 4, 10], [1, 1, 3, 3, 4]):
+        n = len(c)
+        res = k.L.ask("c17_int", {"kind": "w_state", "n": n, "coeff": c})
+        prng = case_rng("c17/w_state-scale", c)
+        for e in SCALE_EXPONENTS:
+            t = math.ldexp(1.0, e)
+            for form, cpy in (("scaled-list", [t * x for x in c]), ("scaled-array", present_nd(prng, np.array([t * x for x in c], dtype=float), allow_dtype=False))):
+                args = {"num_qubits": n, "coeff": c, "scale_log2": e, "form": form}
+                r = k.run_impl(S.w_state, n, cpy)
+                k.case("w_state", args, True, "w_state/coeff-scaled")
+                if r[0] != "ok":
+                    k.bad(f"raised {r[1]} on a coefficient vector of norm 2^{e} * {SQ(sum(x * x for x in c)):.4g}", "w_state", args, theorem="w_scaled_coeff_model")
+                    continue
+                if not k.cmp_int("w_state", args, r[1], res, "w_scaled_coeff_model / w_coeff_scale_invariant (normalisation at every scale) + w_amplitude / w_support", kind=w_kind):
+                    x = np.asarray(r[1], dtype=float).reshape(-1)
+                    k.close("norm", "w_state", args, x @ x, 1.0, theorem="w_norm / w_scaled_coeff_model")
     for (n, c) in [(1, None), (0, None), (-1, None), (4, [1, 2, 3]), (2, [1, 2, 3])]:
         k.expect_reject("w_state", {"num_qubits": n, "coeff": c}, S.w_state, (n, c), k.L.ask("c17_int", {"kind": "w_state", "n": n, "coeff": c}))
 
